@@ -176,7 +176,12 @@ def run_battery(ctx, mutants: list[dict], twins: list[dict] | None = None) -> di
             if not pf.exists():
                 continue
             if d.name.startswith(f"{ctx.prop}-"):
-                mutants.append(dict(name=f"seeded:{d.name}", patch=str(pf), expect=[ctx.prop + "."]))
+                miss = None
+                try:
+                    miss = json.loads((d / "meta.json").read_text()).get("known_miss")
+                except Exception:
+                    pass
+                mutants.append(dict(name=f"seeded:{d.name}", patch=str(pf), expect=[ctx.prop + "."], known_miss=miss))
             elif d.name.startswith(f"twin-{ctx.prop}-"):
                 limit = None
                 try:
@@ -192,7 +197,7 @@ def run_battery(ctx, mutants: list[dict], twins: list[dict] | None = None) -> di
         with cf.ProcessPoolExecutor(max_workers=workers) as ex:
             results = list(ex.map(_one, jobs))
     by = {r["name"]: r for r in results}
-    fired, silent, skipped, broken, limits = [], [], [], [], []
+    fired, silent, skipped, broken, limits, misses = [], [], [], [], [], []
     for m in mutants:
         r = by[m["name"]]
         if r["status"] == "skipped":
@@ -206,6 +211,8 @@ def run_battery(ctx, mutants: list[dict], twins: list[dict] | None = None) -> di
         exp = [exp] if isinstance(exp, str) else exp
         if any(k[0] == e or (e.endswith(".") and k[0].startswith(e)) for k in new for e in exp):
             fired.append({"mutant": m["name"], "reported": [f"{k[0]} {k[1]}" for k in new][:4]})
+        elif m.get("known_miss"):
+            misses.append({"mutant": m["name"], "why": m["known_miss"]})          # a documented miss (DESIGN.md): reported, not hidden
         else:
             broken.append(f"mutant {m['name']} (expects {exp}) not reported; new findings: {new[:3]}")
     for t in twins:
@@ -234,5 +241,6 @@ def run_battery(ctx, mutants: list[dict], twins: list[dict] | None = None) -> di
         "selftest_twins_silent": len(silent), "selftest_twins_total": len(twins),
         "selftest_skipped": skipped, "selftest_broken": broken,
         "selftest_known_limits": limits,
+        "selftest_known_misses": misses,
         "selftest_samples": fired[:40],
     }
